@@ -104,6 +104,10 @@ class RaisingMapping(collections.abc.Mapping):
         return iter(self)
 
 
+# mappings with __missing__ (they answer `m[k]` for keys they do not have): form -> value id of the answer
+MISSING_FORMS = {'c': 0, 'd0': 0, 'dn': NONE_V}
+
+
 # malformed items inside an iterable of pairs (what comes after them is never reached)
 MALFORMED = [lambda: ('lonely',), lambda: 5, lambda: ('a', 'b', 'c'), lambda: ([], 1), lambda: None, lambda: ({}, 0)]
 # calls that raise on their first look at the argument: nothing may change
@@ -711,7 +715,8 @@ class C01(Property):
               ['new', ['mx', [[0, 0]]], []], ['upd', ['p', 'y', [[0, 0], [1, 1], [0, 1]]], []],
               ['ext', ['p', 'y', [[1, 0]]], []], ['new', ['p', 'y', [[0, 1]]], []], ['ior', ['p', 'y', []]],
               ['rej', 'add'], ['rej', 'upd_none'], ['rej', 'poplast'], ['rej', 'addlist_int'],
-              ['fk', [0, 1, 0], 1], ['fk', [1], -1], ['fk', [], 0], ['it', 0], ['it', 1], ['drain']]
+              ['fk', [0, 1, 0], 1], ['fk', [1], -1], ['fk', [], 0], ['it', 0], ['it', 1], ['drain'],
+              ['eq', ['mm', 'c', [[1, 0]]]], ['eq', ['mm', 'd0', [[0, 0]]]], ['upd', ['mm', 'c', [[0, 1], [1, 0]]], []]]
         return A
 
     def _core_alphabet(self):
@@ -791,6 +796,8 @@ class C01(Property):
             return ['m', self._rmapping(rng, nk, vmax)]
         if for_eq and r < 0.72:
             return ['x', rng.choice(['l', 'n', 'i', 'td', 'td'])]
+        if r < 0.76 and (for_eq or r < 0.73):
+            return ['mm', rng.choice(sorted(MISSING_FORMS)), self._rmapping(rng, nk, vmax)]
         if not for_eq and r < 0.69:
             return ['mx', self._rmapping(rng, nk, vmax)]
         q = rng.random()
@@ -954,6 +961,16 @@ class C01(Property):
                   ['upd', ['m', [[0, 1], [3, 1]]], []], ['ext', ['s'], []], ['clear'], ['cp', 'cc', 's']):
             H.append([base, ['it', 1], m, ['it', 2], ['poplast', 0, 1], ['drain'], ['add', 0, 1], ['it', 0], ['clear'], ['drain'],
                       ['add', 1, 1]])
+        # mappings with __missing__ (Counter, defaultdict): a key the mapping lacks must not be answered by its default
+        for form in sorted(MISSING_FORMS):
+            z = MISSING_FORMS[form]
+            for h in ([['add', 0, z], ['eq', ['mm', form, [[1, z]]]], ['eq', ['mm', form, [[0, z]]]], ['eq', ['mm', form, []]]],
+                      [['add', 0, 1], ['add', 1, 2], ['add', 0, z], ['eq', ['mm', form, [[1, 2], [3, 1]]]],
+                       ['eq', ['mm', form, [[1, 2], [0, z]]]], ['eq', ['mm', form, [[1, 2], [2, z]]]], ['upd', ['mm', form, [[2, 1]]], []],
+                       ['eq', ['mm', form, [[1, 2], [2, 1], [3, z]]]], ['ext', ['mm', form, [[0, 3]]], []], ['new', ['mm', form, [[1, 1]]], []]],
+                      [base, ['eq', ['mm', form, [[0, 2], [1, 0], [3, 3]]]], ['set', 2, z], ['eq', ['mm', form, [[0, 2], [1, 0], [3, 3]]]],
+                       ['eq', ['mm', form, [[0, 2], [1, 0], [2, z]]]]]):
+                H.append(h)
         # caller-supplied defaults (falsy ones included) for every method that takes one, on absent and present keys
         D = [['pop', 3, 1], ['poplast', 3, 1], ['popall', 3, 1], ['poplast', -1, 1]]
         H.append(D * 4)
@@ -991,6 +1008,8 @@ class C01(Property):
             return 'S'
         if E[0] == 'sd' or E == ['x', 'td']:
             return 'D'
+        if E[0] == 'mm':
+            return 'm' + self._pairs_tok(E[2])
         if E[0] == 'x':
             return 'x'
         if E[0] == 'p':
@@ -1065,6 +1084,12 @@ class C01(Property):
             return cx.omd_class(cls, _classes())(cx.pairs(E[1]))
         if kind == 'm':
             return cx.mapping(cx.pairs(E[1]))
+        if kind == 'mm':
+            ps = dict(cx.pairs(E[2]))
+            if E[1] == 'c':
+                return collections.Counter(ps)
+            z = cx.V(MISSING_FORMS[E[1]])
+            return collections.defaultdict(lambda: z, ps)
         if kind == 'mx':
             cx.n += 1
             return RaisingMapping(cx.pairs(E[1]), ('never', 'a key'), cx.n % 2)
@@ -1099,7 +1124,7 @@ class C01(Property):
                     a.add(k, JUNK)
                 a.add(JUNK, JUNK)
                 a.clear()
-            elif kind in ('m', 'sd') and hasattr(a, 'clear'):
+            elif kind in ('m', 'sd', 'mm') and hasattr(a, 'clear'):
                 a[JUNK] = JUNK
                 a.clear()
             elif kind in ('p', 'sl') and isinstance(a, list):
@@ -1542,6 +1567,8 @@ class C01(Property):
             return 'omd', [tuple(p) for p in E[1]]
         if E[0] == 'm':
             return 'map', [tuple(p) for p in E[1]]
+        if E[0] == 'mm':
+            return 'map', [tuple(p) for p in E[2]]
         if E[0] == 'sl':
             return 'pairs', list(L)
         if E[0] == 'sd' or E == ['x', 'td']:
@@ -1710,6 +1737,15 @@ class C01(Property):
                 else:
                     e = False
                 exp = ['B', int(e), int(not e), int(e), int(not e)]
+                if op[1][0] == 'mm' and not e and ret[0] == 'B' and ret[1] == 1:
+                    # (a defaultdict has grown by the time != / the reflected forms are evaluated: only the first answer counts)
+                    # exactly what an `other[k]`-only comparison gives: same size, every key of the dictionary either
+                    # matches or is ABSENT from the mapping while the mapping's __missing__ answer equals its value
+                    m, z, ks = dict(ps), MISSING_FORMS[op[1][1]], self._keys(L)
+                    if len(m) == len(ks) and all((m[k] == self._vals_of(L, k)[-1]) if k in m else
+                                                 (self._vals_of(L, k)[-1] == z) for k in ks):
+                        return Failure('eq:missing', 'op #%d %r: == is True although the mapping %r lacks a key of the pairs %r '
+                                       '(its __missing__ answered for it)' % (idx, op, m, L))
             elif name == 'sorted':
                 fn = {'n': (lambda p: p), 'k': (lambda p: p[0]), 'v': (lambda p: p[1]), 'c': (lambda p: 0)}[op[1]]
                 res = sorted(L, key=fn, reverse=bool(op[2]))
@@ -1796,6 +1832,11 @@ class C01(Property):
                 return ('read:' + name, '%s gives %r, a plain list of pairs gives %r' % (name, got, want))
         return None
 
+    # known finding (until the fix: commit of branch r3-c01-work is in the checked tree): == against a mapping with
+    # __missing__; the oracle raises this tag only on the exact trigger and the exact wrong answer
+    def finding_eq_mapping_missing(self, case, failure):
+        return failure.tag == 'eq:missing'
+
     def nontrivial(self, case, obs):
         return getattr(self, '_nt', False)
 
@@ -1812,7 +1853,7 @@ class C01(Property):
             yield dict(case, u='S')
         for i, op in enumerate(ops):
             # shrink pair lists / value lists inside arguments
-            if op[0] in ('upd', 'ext', 'new', 'ior', 'eq') and op[1] is not None and op[1][0] in ('o', 'm', 'p', 'mx'):
+            if op[0] in ('upd', 'ext', 'new', 'ior', 'eq') and op[1] is not None and op[1][0] in ('o', 'm', 'p', 'mx', 'mm'):
                 E = op[1]
                 ps = E[-1]
                 for j in range(len(ps)):
